@@ -263,10 +263,20 @@ func c12CheckDist(c c12DistCase) (v vcase.Verdict) {
 	}
 	// Monotone on the sorted arguments.
 	sort.Float64s(all)
+	// DESIGN.md allows 1e-13 for rounding. For the t distribution the
+	// prefactor of the incomplete beta function holds a power q^(ν/2) (or
+	// (1−q)^(ν/2)) of an argument that was rounded to ε relative, which is
+	// ν/2·ε relative noise on a term ≤ ½, for each of the two values compared:
+	// the floor is ν·ε/2 (5.5e-12 at ν = 1e5; observed 1.3e-12 there). We
+	// allow ν·ε on top of the 1e-13.
+	monoTol := 1e-13
+	if c.Kind == "t" {
+		monoTol += c.V * c12Eps
+	}
 	prev, prevX := 0.0, math.Inf(-1)
 	for _, x := range all {
 		f := dist.CDF(x)
-		if f < prev-1e-13 {
+		if f < prev-monoTol {
 			v.Failf("%s %+v: not monotone: F(%v)=%v > F(%v)=%v", c.Kind, dist, prevX, prev, x, f)
 			return
 		}
